@@ -719,7 +719,7 @@ func (w *worker) cliOp(kind string, set *sharedSet) (class string) {
 }
 
 // run performs up to n operations and returns how many are left: after an operation that ended in a recovered
-// panic the goroutine retires (its race-detector shadow stack is no longer trustworthy) and a fresh one continues.
+// panic the goroutine retires at once and a fresh one continues.
 func (w *worker) run(n int) int {
 	rd := w.rd
 	for i := 0; i < n; i++ {
@@ -765,6 +765,11 @@ func (w *worker) run(n int) int {
 		case strings.HasPrefix(class, "crosstalk"):
 			rd.violation("C20:crosstalk:"+kind, class, map[string]any{"operation": kind, "where": where})
 		case strings.HasPrefix(class, "error:"), strings.HasPrefix(class, "harness"):
+			e := strings.ReplaceAll(class, "\n", " ")
+			if len(e) > 100 {
+				e = e[:100]
+			}
+			rd.run.Count("conc_errors", kind+" "+e)
 			rd.run.SampleKind("conc-error:"+kind, map[string]any{"operation": kind, "where": where, "round": rd.cfg, "outcome": class})
 		case class == "panic":
 			return n - i - 1
@@ -837,9 +842,10 @@ func runRound(run *ev.Run, r int) {
 		go func(wi int) {
 			defer wg.Done()
 			w := &worker{rd: rd, id: wi, r: run.CaseRand(uint64(100+r), wi), pk: pocket{}}
-			// The operations of one worker run in a succession of short-lived goroutines: recovered panics
-			// anywhere below (the standard library uses them too) leave stale frames on the race detector's
-			// shadow stack of a goroutine, which would otherwise grow without bound.
+			// The operations of one worker run in a succession of short-lived goroutines: the race detector's
+			// shadow stack of a goroutine accumulates stale frames (after every recovered panic, and with this
+			// toolchain after every handler call), which would otherwise grow without bound and make each
+			// report cost 100 KB of symbolised garbage. Attribution uses innermost frames and is unaffected.
 			for rem := per; rem > 0; {
 				batch := min(rem, 20)
 				left := make(chan int)
